@@ -114,6 +114,32 @@ def r2_replace_all(ctx):
     if not fns:
         r.anchor_missing("impls of EventLog::replace_all_events")
         return
+    # the restoring helper of the file-system log: the snapshot file is moved
+    # back first, and only then the in-memory tree is rebuilt from the file
+    for rf in ws.find_fns(r"FileSystemEventLog::<.*>::try_rollback_snapshot$"):
+        rb = cfg.code_body(ws, rf)
+        live_ = cfg.live_blocks(rb)
+        ren = [i for i, t in idioms.real_calls(rb, live_) if cname(t) in ("rename", "copy")]
+        lt = [i for i, t in idioms.real_calls(rb, live_) if cname(t) == "load_tree"]
+        oks_ = [e.block for e in cfg.exits(rb) if e.kind == "ok"]
+        k = rf.root + "|restore-then-reload"
+        if not ren:
+            r.violation(k, cfg.loc(rb), "try_rollback_snapshot no longer moves the snapshot file back", work=len(live_))
+        elif not lt:
+            r.violation(k, cfg.loc(rb, ren[0]), "after moving the snapshot back the in-memory tree is not rebuilt from the restored file (load_tree): the live log keeps the tree of the refused events, or an empty one", work=len(live_))
+        else:
+            starts = []
+            for x in ren:
+                sst, _ = idioms.success_start(rb, x)
+                starts.extend(sst)
+            early = [x for x in lt if x in cfg.reach(rb, [0], cut_blocks=ren)]
+            skipped = [o for o in oks_ if o in cfg.reach(rb, starts, cut_blocks=lt)]
+            if early:
+                r.violation(k, cfg.loc(rb, early[0]), "load_tree runs before the snapshot file is moved back: the tree is rebuilt from the refused events and then the file is restored, so memory and storage disagree", work=len(live_))
+            elif skipped:
+                r.violation(k, cfg.loc(rb, ren[0]), "try_rollback_snapshot can return Ok after restoring the file without reloading the tree", work=len(live_))
+            else:
+                r.ok(k, cfg.loc(rb, lt[0]), "snapshot file moved back, then load_tree, on every Ok path", work=len(live_))
     for fn in fns:
         body = cfg.code_body(ws, fn)
         key = fn.root
